@@ -182,7 +182,7 @@ func meshCase(d desc) wcase {
 	if d.Seq {
 		o := entryRun(d, 0)
 		w := wcase{Kind: "seq-" + d.Entry, Nontriv: d.N >= 2}
-		if o.panicked != "" && d.N > 0 {
+		if o.panicked != "" {
 			w.GoFail = "sequential entry point panicked: " + o.panicked
 		}
 		switch d.Entry {
@@ -197,7 +197,8 @@ func meshCase(d desc) wcase {
 	}
 	par := entryRun(d, mode)
 	w := wcase{Kind: d.Entry, Nontriv: d.N >= 2 && s >= 2}
-	if par.panicked != "" && d.N > 0 {
+	if par.panicked != "" {
+		// also for an empty input: the sequential entry points accept it (checked by the seq-* cases)
 		w.GoFail = "parallel entry point panicked: " + par.panicked
 	}
 	if d.Large {
@@ -353,9 +354,6 @@ func executeRace(d desc) string {
 				mode = 2
 			}
 			par := entryRun(d, mode)
-			if par.panicked != "" && d.N == 0 {
-				continue
-			}
 			if !idealOutcome(d, par) {
 				return "result under -race differs from the ideal observation"
 			}
